@@ -208,7 +208,7 @@ class AsyncioEventLoop(EventLoop):
         return True
 
     def _exception_handler(self, loop: asyncio.AbstractEventLoop, context):
-        if exc := context.get("exception"):
+        if (exc := context.get("exception")) is not None:
             loop.stop()
 
             if self._idle_asyncio_handle:
@@ -231,7 +231,7 @@ class AsyncioEventLoop(EventLoop):
         """
         self._loop.set_exception_handler(self._exception_handler)
         self._loop.run_forever()
-        if self._exc:
+        if self._exc is not None:
             exc = self._exc
             self._exc = None
             raise exc.with_traceback(exc.__traceback__)
